@@ -254,8 +254,10 @@ func bigBody(gen string, n int) []byte {
 		if p < 1 {
 			p = 1
 		}
-		for i := range b {
-			b[i] = byte(i % p * 37)
+		for i := 0; i < p && i < n; i++ {
+			b[i] = byte(i * 37)
+		}
+		for i := p; i < n; i += copy(b[i:], b[:i]) { // doubling copy: same bytes as b[i] = byte(i % p * 37)
 		}
 	case 'r':
 		x := uint64(atoi(gen[1:]))*0x9E3779B97F4A7C15 + 0x1234567
@@ -423,8 +425,8 @@ func genLz4Seqs(r *vh.Rng) ([]byte, int, string) {
 			ll = 1 + r.Intn(20)
 		}
 		last := i == n-1
-		if last && ll < 12 {
-			ll = 12 + r.Intn(8) // the format's end-of-block rules: the last match starts at least 12 bytes before the end, the last 5 bytes are literals
+		if last && ll == 0 {
+			ll = 1 + r.Intn(8) // a last sequence without literals is the one ending the amd64 decoder rejects (lz4EndRules)
 		}
 		ml := 0
 		if !last {
@@ -521,7 +523,7 @@ func genLz4blk(r *vh.Rng, lens []int) (string, string) {
 		return "", "lz4blk/zero-offset-skipped" // proposed KF-C18-3: the amd64 decoder accepts a match offset of 0
 	}
 	if !lz4EndRules(block) {
-		return "", "lz4blk/end-rules-violated-skipped" // implementation-defined: decoders may rely on the encoder's end-of-block rules
+		return "", "lz4blk/last-sequence-without-literals-skipped" // the amd64 decoder rejects exactly these, the format's decoder accepts them
 	}
 	if n == 0 && len(block) > 0 {
 		return "", "lz4blk/empty-destination-skipped" // lz4.go never calls the decoder for a zero prefix
@@ -582,17 +584,19 @@ func lz4ZeroOffset(src []byte) bool {
 	return false
 }
 
-// lz4EndRules tells whether a structurally complete block obeys the format's end-of-block rules for
-// ENCODERS (a decoder may rely on them, and pierrec's amd64 decoder does): if there is any match, the
-// block ends with at least 5 literals and the last match starts at least 12 bytes before the end of the
-// output; without a match, at least one literal.
+// lz4EndRules tells whether a structurally complete block ends as pierrec/lz4 v4.1.8's amd64 decoder
+// demands: its LAST sequence has at least one literal. Measured (round 9, blocks of 1/14/20 literals + a
+// match of 4..30 bytes + k last literals, and literal-only blocks): the assembly decoder answers an error
+// exactly when the last sequence's literal length is 0 — a lone token `00`, or a block that ends with a
+// token right after a match — and agrees with the format's decoder (and the library's pure-Go decoder,
+// which accepts those too) for k = 1..4 last literals and for a last match closer than 12 bytes to the
+// end, i.e. it does NOT enforce the encoder-side rules "last 5 bytes are literals" / "last match starts
+// 12 bytes before the end". No conforming encoder emits a last sequence without literals.
 func lz4EndRules(src []byte) bool {
 	if len(src) == 0 {
 		return true
 	}
 	i := 0
-	matches := 0
-	lastML := 0
 	for i < len(src) {
 		tok := src[i]
 		i++
@@ -609,25 +613,18 @@ func lz4EndRules(src []byte) bool {
 		}
 		i += ll
 		if i >= len(src) {
-			if matches == 0 {
-				return ll >= 1
-			}
-			return ll >= 5 && ll+lastML >= 12
+			return ll >= 1
 		}
 		i += 2
-		ml := int(tok & 15)
-		if ml == 15 {
+		if tok&15 == 15 {
 			for i < len(src) {
 				b := src[i]
 				i++
-				ml += int(b)
 				if b != 255 {
 					break
 				}
 			}
 		}
-		lastML = ml + 4
-		matches++
 	}
 	return false
 }
